@@ -400,6 +400,12 @@ func instrIndex(in ssa.Instruction) int {
 
 // instrDominates: a executes before b on every path reaching b.
 func instrDominates(a, b ssa.Instruction) bool {
+	if _, deferred := a.(*ssa.Defer); deferred {
+		return false // a deferred call runs at function exit, after everything else
+	}
+	if _, spawned := a.(*ssa.Go); spawned {
+		return false // a go statement gives no ordering
+	}
 	if a.Block() == b.Block() {
 		return instrIndex(a) < instrIndex(b)
 	}
@@ -561,4 +567,9 @@ func guardsOnEdge(from, to *ssa.BasicBlock) []guard {
 		}
 	}
 	return gs
+}
+
+// inside: b is lexically inside the loop body (including blocks that leave the loop, e.g. early returns).
+func (rl *rangeLoop) inside(b *ssa.BasicBlock) bool {
+	return rl.body[b] || rl.bodyBB.Dominates(b)
 }
